@@ -501,6 +501,141 @@ Section Finish.
     unfold T2 in *. rewrite (filter_mask_md m2 (other a) T1 y W1 Hy). unfold T1. destruct a; reflexivity.
   Qed.
 
+  Lemma T1_other_nonneg : Forall (Forall (fun x => (0 <= x)%Z)) (axis_vecs (other a) T1).
+  Proof.
+    rewrite T1_other_vecs. pose proof vs2_shape as Sh. rewrite Forall_forall in Sh.
+    unfold transpose. apply Forall_forall. intros c Hc. apply in_map_iff in Hc. destruct Hc as [j [<- _]].
+    unfold mcol. apply Forall_forall. intros x Hx. apply in_map_iff in Hx. destruct Hx as [r [<- Hr]].
+    apply Forall_nth_nonneg. apply (Sh r Hr).
+  Qed.
+
+  Lemma finish_ids_other_nz :
+    ids (other a) T2 = select (map (fun c => negb (all_zero c)) (axis_vecs (other a) T1)) (ids (other a) K).
+  Proof.
+    rewrite finish_ids_other. unfold m2. rewrite <- T1_other_vecs. f_equal.
+    apply map_ext_Forall. eapply Forall_impl; [|exact T1_other_nonneg]. apply posb_all_zero.
+  Qed.
+
+  Lemma finish_vecs_other_nz :
+    axis_vecs (other a) T2 = filter (fun c => negb (all_zero c)) (axis_vecs (other a) T1).
+  Proof.
+    rewrite finish_vecs_other. apply filter_ext_in. intros c Hc. apply posb_all_zero.
+    pose proof T1_other_nonneg as N. rewrite Forall_forall in N. apply N. exact Hc.
+  Qed.
+
   Lemma finish_type : ttype T2 = ttype K.
   Proof. unfold T2, T1. destruct a; reflexivity. Qed.
 End Finish.
+
+(* ------------------------------------------------------------------ Table.subsample, counts without replacement *)
+Lemma F2_length {A B} (R : A -> B -> Prop) l l' : Forall2 R l l' -> length l = length l'.
+Proof. induction 1; simpl; congruence. Qed.
+
+Lemma F2_in_r {A B} (R : A -> B -> Prop) l l' y : Forall2 R l l' -> In y l' -> exists x, In x l /\ R x y.
+Proof.
+  induction 1 as [|x y' l l' Hxy _ IH]; intros Hin; [contradiction|]. destruct Hin as [->|Hin].
+  - exists x. split; [left; reflexivity|exact Hxy].
+  - destruct (IH Hin) as [x0 [H1 H2]]. exists x0. split; [right; exact H1|exact H2].
+Qed.
+
+Lemma Rwo_shape n C vs vs1 : Forall2 (Rwo n) vs vs1 -> rect C vs -> rect C vs1 /\ length vs1 = length vs.
+Proof.
+  intros H R. split; [|symmetry; eapply F2_length; exact H].
+  unfold rect in *. induction H as [|v v' vs vs1 (L & _) _ IH]; [constructor|].
+  inversion R; subst. constructor; [congruence|apply IH; assumption].
+Qed.
+
+Lemma nonneg_of_nth v : (forall j, (0 <= nth j v 0)%Z) -> Forall (fun x => (0 <= x)%Z) v.
+Proof.
+  intros H. apply Forall_forall. intros x Hx. destruct (In_nth v x 0%Z Hx) as [j [_ <-]]. apply H.
+Qed.
+
+Lemma Rwo_nonneg n vs vs1 : Forall2 (Rwo n) vs vs1 -> Forall (Forall (fun x => (0 <= x)%Z)) vs1.
+Proof.
+  induction 1 as [|v v' vs vs1 (_ & B & _) _ IH]; constructor; [|exact IH].
+  apply nonneg_of_nth. intros j. specialize (B j). lia.
+Qed.
+
+Lemma Rwo_posb n v v' : 1 <= n -> Rwo n v v' -> posb v' = (Z.of_nat n <=? zsum v)%Z.
+Proof.
+  intros Hn (_ & _ & S). unfold posb. rewrite S. destruct (Z.ltb_spec (zsum v) (Z.of_nat n)).
+  - symmetry. apply Z.leb_gt. assumption.
+  - destruct (Z.leb_spec (Z.of_nat n) (zsum v)); [|lia]. apply Z.ltb_lt. lia.
+Qed.
+
+Lemma Rwo_get n vs vs1 : Forall2 (Rwo n) vs vs1 -> forall i j, (0 <= get vs1 i j <= get vs i j)%Z.
+Proof.
+  intros H. induction H as [|v v' vs vs1 (_ & B & _) _ IH]; intros i j.
+  - unfold get. destruct i, j; simpl; lia.
+  - destruct i as [|i]; [apply B|apply IH].
+Qed.
+
+Lemma Forall2_map_eq {A B} (R : A -> A -> Prop) (f g : A -> B) l l' :
+  Forall2 R l l' -> (forall x y, R x y -> f y = g x) -> map f l' = map g l.
+Proof. intros H E. induction H as [|x y l l' Hxy _ IH]; simpl; [reflexivity|]. rewrite (E x y Hxy), IH. reflexivity. Qed.
+
+Lemma md_of_with_axis_vecs b a t vs x : md_of b (with_axis_vecs a t vs) x = md_of b t x.
+Proof. destruct b; reflexivity. Qed.
+
+Theorem subsample_counts_spec n a lay draws t :
+  wf t -> nonneg_table t -> 1 <= n -> lay_wf (axis_vecs a t) lay ->
+  draws_ok n (map zsum (axis_vecs a t)) draws ->
+  let K := kernel_table_wo n a lay draws t in
+  let t' := subsample_counts n a lay draws t in
+  wf t' /\
+  ids a t' = select (map (fun v => (Z.of_nat n <=? zsum v)%Z) (axis_vecs a t)) (ids a t) /\
+  Forall (fun v => zsum v = Z.of_nat n) (axis_vecs a t') /\
+  (forall o s v, cell t' o s = Some v -> exists v0, cell t o s = Some v0 /\ (0 <= v <= v0)%Z) /\
+  ids (other a) t' = select (map (fun c => negb (all_zero c)) (axis_vecs (other a) (drop_nonpositive a K)))
+                            (ids (other a) t) /\
+  axis_vecs (other a) t' = filter (fun c => negb (all_zero c)) (axis_vecs (other a) (drop_nonpositive a K)) /\
+  (forall x, In x (ids a t') -> md_of a t' x = md_of a t x) /\
+  (forall y, In y (ids (other a) t') -> md_of (other a) t' y = md_of (other a) t y) /\
+  ttype t' = ttype t.
+Proof.
+  intros W NN Hn HL HD K t'.
+  pose proof (sub_vecs_R n (axis_vecs a t) lay draws HL (nonneg_axis_vecs a t NN) HD) as R.
+  set (vs1 := sub_vecs n (axis_vecs a t) lay draws) in *.
+  destruct (Rwo_shape n (n_other a t) _ _ R (axis_vecs_rect a t W)) as [Rc Rl].
+  rewrite (axis_vecs_length a t W) in Rl.
+  assert (WK : wf K) by (apply wf_with_axis_vecs; assumption).
+  assert (EK : axis_vecs a K = vs1) by (apply axis_vecs_with; assumption).
+  assert (NK : Forall (Forall (fun x => (0 <= x)%Z)) (axis_vecs a K)) by (rewrite EK; eapply Rwo_nonneg; exact R).
+  assert (IK : forall b, ids b K = ids b t) by (intros b; destruct b; reflexivity).
+  unfold t', subsample_counts. fold K. rewrite (finish_eq a K WK).
+  rewrite (drop_nonpositive_mask a K WK).
+  split; [apply finish_wf; assumption|].
+  split.
+  { rewrite finish_ids_axis by assumption. rewrite IK, EK. f_equal. apply (Forall2_map_eq (Rwo n)); [exact R|].
+    intros x y Hxy. apply Rwo_posb; assumption. }
+  split.
+  { rewrite finish_vecs_axis by assumption. apply Forall_forall. intros v' Hv'. apply in_map_iff in Hv'.
+    destruct Hv' as [v2 [<- Hv2]]. rewrite (finish_sum a K) by assumption.
+    assert (Hin : In v2 (axis_vecs a K)) by (eapply select_In; exact Hv2).
+    assert (Hp : posb v2 = true).
+    { pose proof (Forall_select_map posb (axis_vecs a K)) as F. rewrite Forall_forall in F. apply F. exact Hv2. }
+    rewrite EK in Hin. destruct (F2_in_r _ _ _ _ R Hin) as [v0 [_ Rv]].
+    rewrite (Rwo_posb n v0 v2 Hn Rv) in Hp. destruct Rv as (_ & _ & S). rewrite S.
+    apply Z.leb_le in Hp. destruct (Z.ltb_spec (zsum v0) (Z.of_nat n)); [lia|reflexivity]. }
+  split.
+  { intros o s v Hc.
+    assert (Ho : In o (oids (filter_mask (map posb (transpose (n_other a K) (select (map posb (axis_vecs a K)) (axis_vecs a K))))
+                                         (other a) (filter_mask (map posb (axis_vecs a K)) a K)))).
+    { unfold cell in Hc. destruct (pos o (oids _)) as [i|] eqn:E; [|discriminate].
+      apply pos_Some in E. destruct E as [<- Hi]. apply nth_In. exact Hi. }
+    assert (Hs : In s (sids (filter_mask (map posb (transpose (n_other a K) (select (map posb (axis_vecs a K)) (axis_vecs a K))))
+                                         (other a) (filter_mask (map posb (axis_vecs a K)) a K)))).
+    { unfold cell in Hc. destruct (pos o (oids _)) as [i|]; [|discriminate].
+      destruct (pos s (sids _)) as [j|] eqn:E; [|discriminate].
+      apply pos_Some in E. destruct E as [<- Hj]. apply nth_In. exact Hj. }
+    rewrite (finish_cell a K) in Hc by assumption. unfold K, kernel_table_wo in Hc. rewrite cell_with_axis_vecs in Hc.
+    rewrite (cell_axis_vecs a t o s W).
+    destruct (pos o (oids t)) as [i|]; [|discriminate]. destruct (pos s (sids t)) as [j|]; [|discriminate].
+    inversion Hc; subst. eexists. split; [reflexivity|].
+    fold vs1. destruct a; simpl; apply (Rwo_get n _ _ R). }
+  split; [rewrite finish_ids_other_nz by assumption; rewrite IK; reflexivity|].
+  split; [apply finish_vecs_other_nz; assumption|].
+  split; [intros x Hx; rewrite (finish_md_axis a K) by assumption; apply md_of_with_axis_vecs|].
+  split; [intros y Hy; rewrite (finish_md_other a K) by assumption; apply md_of_with_axis_vecs|].
+  rewrite finish_type by assumption. reflexivity.
+Qed.
